@@ -172,7 +172,7 @@ def plan(tier):
             continue
         items.append(it)
     # synthetic streams and alternative timing references
-    for stream, names in (('synirr', None), ('synoff', None), ('synnot', None), ('synwild', None), ('synnum', None), ('syndef', None), ('syntrk', None)):
+    for stream, names in (('synirr', None), ('synoff', None), ('synnot', None), ('synwild', None), ('synnum', None), ('syndef', None), ('syntrk', None), ('synzero', None)):
         for tmpl in ('hand_made', 'manifest_e', 'manifest_n'):
             for opts in ({'start': 'explicit', 'depth': '30'}, {'start': 'explicit', 'depth': '30', 'timeline': '1'},
                          {'start': 'epoch', 'depth': '30'}):
@@ -180,7 +180,7 @@ def plan(tier):
                     continue
                 items.append({'stream': stream, 'template': tmpl, 'opts': opts, 'stride': 1 if tier != 'quick' else 6,
                               'tier': tier})
-    for stream in ('bbb', 'tears', 'synirr', 'synoff', 'synnot', 'synwild', 'synnum', 'syndef', 'syntrk'):
+    for stream in ('bbb', 'tears', 'synirr', 'synoff', 'synnot', 'synwild', 'synnum', 'syndef', 'syntrk', 'synzero'):
         for tmpl in ('hand_made', 'manifest_e', 'manifest_n'):
             for opts in ({}, {'timeline': '1'}):
                 if opts and tmpl == 'manifest_e':
